@@ -4,9 +4,9 @@ Assembled from the parts that own each input surface:
   * gossip messages in every connection state, with boundary values (timestamp 0, since > until, maximum
     ping sizes, empty vectors, forged signatures, messages from disconnected / unknown peers): the gossip
     engine's scenarios, clause C13_Panic of TraceGossip.tla;
-  * fetch scheduling inputs (announcement-triggered fetches, results in any order): clause C16_Panic of
-    TraceFetchSched.tla (run by the C16 check; here the gossip scenarios already cover fetch-triggering
-    announcements);
+  * fetch scheduling inputs (announcement-triggered fetches, results in any order, connections, dial
+    failures and disconnections of either link): props/C16.py c13_part (scripted + seeded random scenarios on
+    the real Service, clause C16_Panic of TraceFetchSched.tla);
   * git request headers: props/C12.py c13_part (Serve.tla header classes + seeded random/mutated bytes
     through the real pkt-line parser);
   * frame bytes: props/C14.py c13_part (Wire.tla frame classes + seeded random/mutated bytes through the
@@ -53,7 +53,7 @@ def run(ctx):
                       {"script": v["script"], "op": v["op"]})
     parts = {"gossip": stats}
     ctx.cov["distinct_nontrivial"] = stats.get("steps", 0)
-    for name in ("C12", "C14", "wire_common"):
+    for name in ("C12", "C14", "wire_common", "C16"):
         mod = load(name)
         if mod is not None and hasattr(mod, "c13_part"):
             parts[name] = mod.c13_part(ctx)
@@ -69,7 +69,7 @@ def replay(ctx, path):
     d = json.load(open(path))["replay"]
     if "script" in d:
         return g.replay(ctx, path)
-    for name in ("C12", "C14", "wire_common"):
+    for name in ("C12", "C14", "wire_common", "C16"):
         mod = load(name)
         if mod is not None and d.get("engine") == getattr(mod, "ENGINE", None):
             return mod.replay(ctx, path)
